@@ -112,8 +112,8 @@ def build_cfg(case: Dict) -> Dict:
     if case.get("declare"):
         (services if kind == "service" else apps).append({"type": typ})
     for k, t in case.get("extra", []):
-        if t == typ or (typ == "c2-server" and t == "c2-beacon"):
-            continue  # (a second, unconnected beacon on the target host would also get the keep-alive meant for the server)
+        if t == typ or {typ, t} == {"c2-server", "c2-beacon"}:
+            continue  # C2 server and beacon on ONE host answer each other's keep-alives without end; not a lifecycle question
         (services if k == "service" else apps).append({"type": t})
     lis = case.get("listener")
     if lis in (True, "c2") and typ not in ("c2-server", "c2-beacon") and not any(a["type"] == "c2-server" for a in apps):
@@ -615,6 +615,9 @@ def _run(case, res, game, sim, node, peer, sm, spy, kind, typ, ops, base):
 
         elif k == "req":
             verb = op[1]
+            if verb == "fix" and typ == "database-service" and "C13-db-fix-restore-crash" in case.get("excl", ()):
+                res.label("excluded:C13-db-fix-restore-crash")  # known crash two ticks later would end the case
+                continue
             pre = m_state
             on = node_on()
             hp = health()
@@ -824,6 +827,11 @@ def interleave_cases():
                     ops = [["req", "restart"]] + ticks[:pos] + [x] + ticks[pos:]
                     yield {"kind": "service", "type": typ, "declare": not system, "extra": [], "listener": False, "rd": rd, "pd": 0,
                            "ops": [list(o) for o in ops]}
+    for kind, types in (("service", SERVICES), ("application", APPS)):  # a fix runs to completion, then a second one
+        for typ in types:
+            system = typ in SYSTEM_SERVICES or typ in SYSTEM_APPS
+            yield {"kind": kind, "type": typ, "declare": not system, "extra": [], "listener": False, "rd": None, "pd": 0,
+                   "ops": [["req", "fix"], ["tick"], ["tick"], ["tick"], ["req", "fix"], ["payload"], ["tick"]]}
     for typ in APPS:
         for x in (["payload"], ["req", "execute"], ["req", "close"], ["install"], ["req", "scan"]):
             for pos in range(3):
@@ -835,7 +843,7 @@ def interleave_cases():
 
 # open findings whose exclusion-by-construction the generators switch on (carried in case["excl"] so that replays of the
 # findings themselves, which do not carry it, still reproduce)
-EXCLUDABLE = {"C13-nmap-uninstalled-crash"}
+EXCLUDABLE = {"C13-nmap-uninstalled-crash", "C13-db-fix-restore-crash"}
 
 
 def timing_cases():
